@@ -145,6 +145,11 @@ ReadLoop(w, d, left, srcErr, pos, out, n, hdrfits) ==
     ELSE LET nn == IF left < Avail(w) THEN left ELSE Avail(w) IN
          ReadLoop([w EXCEPT !.n = w.n + nn], d, left - nn, srcErr, pos + nn, out, n + nn, hdrfits)
 
+\* ReadFrom: like bufio.Writer.ReadFrom, a writer whose destination has failed takes nothing more
+DoReadFrom(w, d, total, srcErr, pos) ==
+    IF w.err THEN [w |-> w, d |-> d, out |-> <<>>, n |-> 0, err |-> "transport", hdrfits |-> TRUE]
+    ELSE ReadLoop(w, d, total, srcErr, pos, <<>>, 0, TRUE)
+
 DoReset(w, side, op) ==
     [w EXCEPT !.side = side, !.op = op, !.buf = w.raw - Reserve(side, w.raw), !.n = 0, !.dirty = FALSE,
               !.fseq = 0, !.comp = FALSE, !.noflush = FALSE,
